@@ -7,11 +7,15 @@
 # a verdict.  The edge replay (sequential) uses the k = 0 instance, i.e. exactly the code's "add two" arithmetic;
 # a replay mismatch is only a finding if the real identifiers break the statement, otherwise it is a binding drift
 # (exit 2: the spec no longer models the code).
+# NextStreamID has no error result, so an identifier handed out after (or while) the connection is closed is an
+# allocated identifier like any other: nonzero and unique (Close action of the spec changes nothing in the allocator).
+# Concurrency is exercised two ways: long runs on one warm object, and thousands of FRESH allocator / connection
+# pairs each hit by a burst of goroutines released together (the very first allocations are concurrent).
 import os, json
 import vf
 
 INVS = "NonZero UniquePerEnd Parity Disjoint CounterAhead"
-DEVS = ["DevNonAtomic", "DevSameParity", "DevStartZero", "DevStepOne"]
+DEVS = ["DevNonAtomic", "DevSameParity", "DevStartZero", "DevStepOne", "DevLazySeed", "DevZeroAfterClose"]
 H_TR = ["common/common_test.go.tmpl", "transport/streamid_test.go"]
 H_PEER = ["common/common_test.go.tmpl", "peer/streamid_test.go"]
 
@@ -24,7 +28,8 @@ def cfg(maxalloc, maxskip, threads, dev=(), emit=False, invs=INVS):
 
 
 def statement_broken(summ):
-    return {k: summ[k] for k in ("zero", "dup_per_end", "parity_bad", "cross_end", "role_bad") if summ.get(k)}
+    return {k: summ[k] for k in ("zero", "dup_per_end", "parity_bad", "cross_end", "role_bad", "zero_after_close",
+                                 "dup_after_close") if summ.get(k)}
 
 
 def validate(ctx, name, tracefile, what):
@@ -100,6 +105,7 @@ def run(ctx):
     out1 = os.path.join(ctx.work, "sid_alloc.ndjson")
     r1 = ctx.gotest("transport", H_TR, "^TestZZVStreamIdTrace$", race=True,
                     env={"ZZV_OUT": out1, "ZZV_G": g, "ZZV_M": m, "ZZV_ROUNDS": rounds, "ZZV_SEQ": seq,
+                         "ZZV_FRESH": 2000 if q else 30000,
                          "ZZV_CORRUPT": os.environ.get("ZZV_CORRUPT", "")})
     s1 = (r1.of("summary") or [None])[0]
     if not s1:
@@ -123,6 +129,36 @@ def run(ctx):
                     % (s2["allocated"], s2["goroutines"], b2), s2)
     v2 = validate(ctx, "sid_conn", out2, "connection")
 
+    # ---- 4. connections: replay with Close (sequential), fresh pairs under a burst, close-then-allocate
+    out3 = os.path.join(ctx.work, "sid_fresh.ndjson")
+    r3 = ctx.gotest("peer", H_PEER, "^(TestZZVStreamIdConnReplay|TestZZVStreamIdFresh)$", race=True, timeout=1500,
+                    env={"ZZV_IN": inp, "ZZV_OUT": out3, "ZZV_FRESH": 3000 if q else 40000, "ZZV_G": 6 if q else 8,
+                         "ZZV_REAL_EVERY": 60 if q else 100})
+    sums = {x.get("test"): x for x in r3.of("summary")}
+    s3, s4 = sums.get("connreplay"), sums.get("fresh")
+    if not s3 or not s4:
+        raise vf.Infra("connection replay / fresh harness produced no summary:\n" + r3.out[-2000:])
+    for mm in r3.of("mismatch"):
+        rid, e = mm["real_id"], mm["e"]
+        hist = mm.get("history", [])
+        if rid == 0:
+            kind = "zero-after-close" if mm.get("closed") else "zero"
+        elif (e == "D") != (rid % 2 == 1):
+            kind = "parity"
+        elif any(h == "Next(%s)=%d" % (e, rid) for h in hist[:-1]):
+            kind = "repeat-after-close" if mm.get("closed") else "repeat"
+        else:
+            drift.append(mm)
+            continue
+        ctx.finding("StreamId:connection:sequential:%s" % kind,
+                    "peer.Connection.NextStreamID on end %s returned %s (spec %s) after %s" % (e, rid, mm.get("spec_id"), " ".join(hist[:-1])), mm)
+    b4 = statement_broken(s4)
+    if b4:
+        ctx.finding("StreamId:fresh-connection:" + "+".join(sorted(b4)),
+                    "%d fresh connection pairs (%d real), first allocations by %d concurrent goroutines, Close racing with / "
+                    "preceding allocations: %s" % (s4["fresh_pairs"], s4["real_pairs"], s4["goroutines"], b4), s4)
+    v4 = validate(ctx, "sid_fresh", out3, "fresh-connection")
+
     if drift and not ctx.violations:
         raise vf.Infra("binding drift: the real allocator no longer follows the k=0 arithmetic of StreamId.tla although "
                        "the statement holds on it: %s" % drift[0])
@@ -135,12 +171,16 @@ def run(ctx):
                               "real connection pair = plain-text WebSocket transport on loopback (role comes from "
                               "PeerConn.IsDialer of the transport)"],
                  states=gen.distinct + ideal.distinct, transitions=gen.generated - 1 + nedges,
-                 traces_validated_against_impl=len(paths) + s1["rounds"] + s2["rounds"],
+                 traces_validated_against_impl=2 * len(paths) + s1["rounds"] + s2["rounds"] + s4["rounds"],
                  exhaustive=True,
                  replayed_paths=len(paths), replayed_steps=rs[0]["steps"], replay_mismatches=len(mism),
                  allocator_allocations=s1["allocated"], allocator_goroutines=s1["goroutines"], allocator_gaps=s1["gaps"],
                  connection_allocations=s2["allocated"], connection_goroutines=s2["goroutines"], connection_gaps=s2["gaps"],
-                 trace_events=s1["events"] + s2["events"], trace_highwater=[v1["hw"], v2["hw"]],
+                 fresh_allocator_pairs=s1.get("fresh_pairs"), fresh_connection_pairs=s4["fresh_pairs"],
+                 fresh_real_transport_pairs=s4["real_pairs"], fresh_connection_allocations=s4["allocated"],
+                 connection_replay_steps=s3["steps"], connection_replay_mismatches=s3["mismatches"],
+                 trace_events=s1["events"] + s2["events"] + s4["events"], trace_highwater=[v1["hw"], v2["hw"], v4["hw"]],
                  deviations_caught=caught,
                  samples=[{"replay_path": [s["a"] for s in paths[0]["steps"]][:8]},
-                          {"allocator_trace_events": s1.get("samples")}, {"connection_trace_events": s2.get("samples")}])
+                          {"allocator_trace_events": s1.get("samples")}, {"connection_trace_events": s2.get("samples")},
+                          {"fresh_connection_bursts": s4.get("samples")}])
